@@ -1,2 +1,270 @@
-/-! line-protocol driver for property C15 (stub) -/
-def main (_args : List String) : IO Unit := pure ()
+import MirVerif.Model.CheckDocRun
+/-! line-protocol driver for property C15 (`mirdrv_c15`).
+
+  mirdrv_c15 [--ndebug]
+    stdin lines, the grammar of harness/c15_harness.c:
+      <id> {P <va> <nres> <type>* <nargs> (<type> <size>)*}* F[!] <va> <nres> <type>* <nargs> (<type> <name>)*
+           {R <type> <name>}* {I <code> <nops> <op>*}* E
+    → `<id> ok` | `<id> err <MIR_error_type_t value> <stage>` | `<id> crash <stage>`
+    (the model of MIR_new_insn_arr / MIR_finish_func / MIR_new_func_reg run in the harness' order)
+  mirdrv_c15 doc [--ndebug]
+    same input, judged by the documentation (Model/CheckDocRun.lean)
+  mirdrv_c15 cells
+    stdin lines `<id> <code> <pos> <op token>` → `<id> <impl> <doc> <deviation signature or ->`
+    (the per-cell verdicts the theorems speak about; `-` for doc = opcode/position not documented)
+  mirdrv_c15 sigs
+    prints for every opcode: `<code> <name> fixed <nops_table> <filler tokens…>` | `… variadic` | `… internal`
+-/
+open MirVerif.Check MirVerif.Gen.C15
+
+def vstr : Verdict → String
+  | .ok => "ok"
+  | .err e => s!"err:{e}"
+  | .crash => "crash"
+
+def memRegTok (s : String) : Option MemReg :=
+  match s with
+  | "0" => some .none
+  | "i" => some (.r (.decl .i64))
+  | "f" => some (.r (.decl .f))
+  | "d" => some (.r (.decl .d))
+  | "l" => some (.r (.decl .ld))
+  | "u" => some (.r .undecl)
+  | _ => none
+
+def refTok (s : String) : Option RefS :=
+  match s with
+  | "func" => some .func | "import" => some .import_ | "export" => some .export_
+  | "forward" => some .forward_ | "data" => some .data | "bss" => some .bss
+  | _ => none
+
+/-- result of parsing an operand token: an operand, or the error raised while building it
+(`MIR_reg` on an unknown name), or a malformed token -/
+inductive Tok where
+  | op (o : Operand)
+  | fail (v : Verdict)
+  | bad
+
+def parseOp (regs : List (String × RegTy)) (t : String) : Tok :=
+  if t.startsWith "r:" then
+    let n := (t.drop 2).toString
+    match regs.find? (fun r => r.1 == n) with
+    | some r => .op (.reg (.decl r.2))
+    | none => .fail (.err E_undeclared_func_reg)
+  else match t with
+  | "r.i" => .op (.reg (.decl .i64)) | "r.f" => .op (.reg (.decl .f)) | "r.d" => .op (.reg (.decl .d))
+  | "r.l" => .op (.reg (.decl .ld)) | "r.u" => .op (.reg .undecl)
+  | "i" => .op .int | "u" => .op .uint | "f" => .op .float | "d" => .op .double | "l" => .op .ldouble
+  | "s" => .op .str | "L" => .op .label
+  | _ =>
+    match t.splitOn "." with
+    | ["m", ty, disp, b, x] =>
+      (match ty.toNat?, disp.toInt?, memRegTok b, memRegTok x with
+       | some ty, some disp, some b, some x => .op (.mem (Ty.ofCode ty) disp b x)
+       | _, _, _, _ => .bad)
+    | ["ref", k] =>
+      if k.startsWith "p" then
+        (match (k.drop 1).toString.toNat? with
+         | some n => .op (.ref .proto n)
+         | none => .bad)
+      else (match refTok k with
+        | some r => .op (.ref r 0)
+        | none => .bad)
+    | _ => .bad
+
+def regTyOfArg (t : Ty) : RegTy :=
+  match t with
+  | .f => .f | .d => .d | .ld => .ld | _ => .i64
+
+structure St where
+  protos : List Proto := []
+  fn : Option Func := none
+  regs : List (String × RegTy) := []     -- declared names with types
+  insns : List Insn := []
+  nR : Nat := 0
+  nI : Nat := 0
+
+def takeN (n : Nat) (ts : List String) : Option (List String × List String) :=
+  if ts.length < n then none else some (ts.take n, ts.drop n)
+
+def natPairs : List Nat → List (Ty × Nat)
+  | t :: s :: r => (Ty.ofCode t, s) :: natPairs r
+  | _ => []
+
+def strPairs : List String → List (Ty × String)
+  | t :: n :: r => (Ty.ofCode (t.toNat?.getD 0), n) :: strPairs r
+  | _ => []
+
+def natsOf (ts : List String) : Option (List Nat) := ts.mapM (·.toNat?)
+
+/-- the two judges: the model of the code, and the documentation -/
+structure Sem where
+  newInsn : List Proto → Nat → List Operand → Verdict
+  finish : List Proto → Func → List Insn → Verdict
+
+def implSem (asserts : Bool) : Sem := ⟨newInsnCheck insnDescs, finishFuncCheck asserts insnDescs⟩
+def docSem (asserts : Bool) : Sem := ⟨docNewInsn insnDescs, docFinishFunc asserts insnDescs⟩
+
+/-- run one case; returns the output text after the id -/
+partial def runCase (asserts : Sem) (st : St) (ts : List String) : String :=
+  match ts with
+  | [] => "bad truncated"
+  | "E" :: _ =>
+    match st.fn with
+    | none => "bad nofunc"
+    | some fn =>
+      match asserts.finish st.protos fn st.insns.reverse with
+      | .ok => "ok"
+      | .err e => s!"err {e} finish"
+      | .crash => "crash finish"
+  | "P" :: va :: nres :: rest =>
+    (match va.toNat?, nres.toNat? with
+     | some va, some nres =>
+       (match takeN nres rest with
+        | some (rts, nargs :: rest2) =>
+          (match natsOf rts, nargs.toNat? with
+           | some rts, some nargs =>
+             (match takeN (2 * nargs) rest2 with
+              | some (ats, rest3) =>
+                (match natsOf ats with
+                 | some ats =>
+                   let res := rts.map Ty.ofCode
+                   let k := st.protos.length
+                   (match newProtoCheck res with
+                    | .ok => runCase asserts { st with protos := st.protos ++ [⟨va != 0, res, natPairs ats⟩] } rest3
+                    | .err e => s!"err {e} P{k}"
+                    | .crash => s!"crash P{k}")
+                 | none => "bad proto args")
+              | none => "bad proto args")
+           | _, _ => "bad proto")
+        | _ => "bad proto")
+     | _, _ => "bad proto")
+  | f :: va :: nres :: rest =>
+    if f == "F" || f == "F!" then
+      (match va.toNat?, nres.toNat? with
+       | some va, some nres =>
+         (match takeN nres rest with
+          | some (rts, nargs :: rest2) =>
+            (match natsOf rts, nargs.toNat? with
+             | some rts, some nargs =>
+               (match takeN (2 * nargs) rest2 with
+                | some (ats, rest3) =>
+                  let args := strPairs ats
+                  let res := rts.map Ty.ofCode
+                  let names := args.map (fun a => a.2.toList)
+                  (match newFuncCheck (va != 0) res names with
+                   | .ok =>
+                     let regs0 := args.map (fun a => (a.2, regTyOfArg a.1))
+                     let std : List (String × RegTy) :=
+                       if f == "F!" then [] else [("ri", .i64), ("rf", .f), ("rd", .d), ("rl", .ld)]
+                     -- the standard registers go through MIR_new_func_reg too
+                     let rec decl (regs : List (String × RegTy)) : List (String × RegTy) → Verdict × List (String × RegTy)
+                       | [] => (.ok, regs)
+                       | (n, t) :: r =>
+                         match declReg (regs.map (fun x => x.1.toList)) t.ty n.toList with
+                         | .ok => decl (regs ++ [(n, t)]) r
+                         | v => (v, regs)
+                     (match decl regs0 std with
+                      | (.ok, regs) => runCase asserts { st with fn := some ⟨va != 0, res⟩, regs := regs } rest3
+                      | (.err e, _) => s!"err {e} F"
+                      | (.crash, _) => "crash F")
+                   | .err e => s!"err {e} F"
+                   | .crash => "crash F")
+                | none => "bad func args")
+             | _, _ => "bad func")
+          | _ => "bad func")
+       | _, _ => "bad func")
+    else if f == "R" then
+      -- R <type> <name>
+      (match va.toNat? with
+       | some t =>
+         let name := nres
+         let k := st.nR
+         (match declReg (st.regs.map (fun x => x.1.toList)) (Ty.ofCode t) name.toList with
+          | .ok =>
+            let rt := (regTyOfCode (Ty.ofCode t)).getD .i64
+            runCase asserts { st with regs := st.regs ++ [(name, rt)], nR := k + 1 } rest
+          | .err e => s!"err {e} R{k}"
+          | .crash => s!"crash R{k}")
+       | none => "bad reg")
+    else if f == "I" then
+      (match va.toNat?, nres.toNat? with
+       | some code, some nops =>
+         (match takeN nops rest with
+          | some (ots, rest2) =>
+            let k := st.nI
+            let toks := ots.map (parseOp st.regs)
+            if toks.any (fun t => match t with | .bad => true | _ => false) then "bad operand"
+            else
+              match toks.findSome? (fun t => match t with | Tok.fail v => some v | _ => none) with
+              | some (Verdict.err e) => s!"err {e} I{k}"
+              | some _ => s!"crash I{k}"
+              | none =>
+                let ops := toks.filterMap (fun t => match t with | .op o => some o | _ => none)
+                (match asserts.newInsn st.protos code ops with
+                 | .ok => runCase asserts { st with insns := ⟨code, ops⟩ :: st.insns, nI := k + 1 } rest2
+                 | .err e => s!"err {e} I{k}"
+                 | .crash => s!"crash I{k}")
+          | none => "bad insn")
+       | _, _ => "bad insn")
+    else s!"bad directive {f}"
+  | _ => "bad line"
+
+def docFiller : DocPos → String
+  | .val .int _ => "r.i"
+  | .val .float _ => "r.f"
+  | .val .double _ => "r.d"
+  | .val .ldouble _ => "r.l"
+  | .val .label _ => "L"
+  | .variable => "r.i"
+  | .vaList => "r.i"
+  | .anyMem => s!"m.{T_I64}.0.i.0"
+  | .propVar => "r.i"
+  | .propConst => "i"
+  | .anyVal => "r.i"
+
+def sigLine (c : Nat) : String :=
+  let name := codeName c
+  match docSig c with
+  | some sig => s!"{c} {name} fixed {nopsOf insnDescs c} " ++ " ".intercalate (sig.map docFiller)
+  | none =>
+    if docVariadic.contains c then s!"{c} {name} variadic"
+    else if docInternal.contains c then s!"{c} {name} internal {nopsOf insnDescs c}"
+    else s!"{c} {name} undocumented {nopsOf insnDescs c}"
+
+def cellLine (ts : List String) : String :=
+  match ts with
+  | [id, c, i, tok] =>
+    (match c.toNat?, i.toNat?, parseOp [] tok with
+     | some c, some i, .op o =>
+       let impl := cellVerdict insnDescs c i o.s
+       let doc := match docCell c i o.s with
+         | some v => vstr v
+         | none => "-"
+       let dev := match knownDeviations.find? (fun d => d.at c i && d.ops o.s.absDoc) with
+         | some d => d.signature
+         | none => "-"
+       s!"{id} {vstr impl} {doc} {dev}"
+     | _, _, _ => s!"{id} bad")
+  | _ => "bad"
+
+partial def loop (h : IO.FS.Stream) (f : List String → String) (withId : Bool) : IO Unit := do
+  let line ← h.getLine
+  if line.isEmpty then return ()
+  let ts := (line.trimAscii.toString.splitOn " ").filter (· != "")
+  match ts with
+  | [] => pure ()
+  | id :: rest => IO.println (if withId then s!"{id} {f rest}" else f ts)
+  loop h f withId
+
+def main (args : List String) : IO Unit := do
+  let stdin ← IO.getStdin
+  match args with
+  | ["cells"] => loop stdin cellLine false
+  | ["sigs"] =>
+    for c in List.range C_INSN_BOUND do IO.println (sigLine c)
+    IO.println ("known " ++ " ".intercalate (knownDeviations.map Deviation.signature))
+  | ["--ndebug"] => loop stdin (runCase (implSem false) {}) true
+  | ["doc"] => loop stdin (runCase (docSem true) {}) true
+  | ["doc", "--ndebug"] => loop stdin (runCase (docSem false) {}) true
+  | _ => loop stdin (runCase (implSem true) {}) true
